@@ -308,7 +308,7 @@ CMD_LETTERS = "VLIZSOYRNP"
 
 OUT_UIDS = {"V": [-1], "L": [2, -1, 127, -128, 16], "N": [2, -1, 127, -128, 16], "P": [2, -1, 127, -128, 16],
             "I": [2, 31, 15, 16], "S": [2, 31, 15, 16], "O": [2, 31, 15, 16], "R": [2, 15, 8]}
-OTHER_QUICK = [0x01, 0x2f, 0x3a, 0x40, 0x47, 0x60, 0x67, 0x7a, 0x80, 0xff]   # neighbours of the letter/digit ranges + extremes
+OTHER_QUICK = [0x01, 0x47, 0x67, 0xff]   # neighbours of the letter/digit ranges + extremes
 
 
 def cq(c):
@@ -322,19 +322,19 @@ def step_cells(tier, lower=None):
     cells = []
     q = tier == "quick"
     lower = (not q) if lower is None else lower
-    letters = [c for c in CMD_LETTERS] + ([c.lower() for c in CMD_LETTERS] if lower else ["p", "l"])
+    letters = [c for c in CMD_LETTERS] + ([c.lower() for c in CMD_LETTERS] if lower else ["p"])
     for c in letters:
         if c in "ZzYy":
             cells.append(("%s" % c, {"CMDCH": cq(c)}))
             continue
         outs = OUT_UIDS[c.upper()]
-        outs = outs[:2] if q else outs
+        outs = outs[:1] if q else outs
         for uid in [0, 1] + outs:
             if c.islower() and q and uid != 1:
                 continue
             cells.append(("%s-u%d" % (c, uid), {"CMDCH": cq(c), "UIDCELL": "(%d)" % uid}))
     hexes = "0123456789abcdefABCDEF"
-    for c in (hexes if not q else "012fF"):
+    for c in (hexes if not q else "012F"):
         uid = int(c, 16)
         if uid < 2:
             # acting data cells: destination slot of a completed packet x upstream codec are cell parameters too
@@ -388,8 +388,8 @@ def emit_jobs(tier, groups, prefix, checks=False, timeout=1500):
     G = {"G_" + g: None for g in groups}
     for uid in (0, 1):
         for qsel in (0, 1):
-            if tier == "quick" and uid == 0 and qsel == 0:
-                continue
+            if tier == "quick" and (uid, qsel) != (1, 1):
+                continue        # quick: one emission cell (slot 1, send-real-soon query); thorough: all four
             defs = {"MODE": 4, "NL": 20, "NU": 2, "UIDCELL": uid, "QSEL": qsel, "CMDCH": "(80)"}
             defs.update(G)
             jobs.append(Job("%s-emit-u%d-%s" % (prefix, uid, "q" if qsel == 0 else "qsoon"), "S_step.c", defs=defs, units=STEP_UNITS,
@@ -430,7 +430,7 @@ def dev_all(tier):
 def c08_jobs(tier):
     q = tier == "quick"
     # encoder space = L - T - 8; shape cells around the dot-insertion edges (multiples of 57/58), the extremes, and L=255
-    spaces = [16, 57, 58, 115, 116, 174, 232, 244] if q else \
+    spaces = [57, 58, 116, 174, 232, 244] if q else \
              [16, 17, 56, 57, 58, 59, 113, 114, 115, 116, 117, 170, 171, 172, 173, 174, 175, 227, 228, 229, 230, 231, 232, 233, 243, 244]
     shape = []
     for sp in spaces:
@@ -505,12 +505,12 @@ def c13_jobs(tier):
             desc="real tun_setip() (LINUX) with two arbitrary address strings and an arbitrary netmask bit count; the command "
                  "handed to system() is parsed by an independent strict oracle",
             bounds="address texts 0..%d chars over all byte values, netbits any int, interface name <= 5 chars [a-z0-9]" % ns,
-            functions=["tun_setip", "is_dotted_quad"]),
+            functions=["tun_setip", "is_dotted_quad"], native_units=["common.c"]),
         Job("setmtu", "C13_shell.c", defs={"MODE": 2, "NS": ns}, units=[], unwind=ns + 4,
             loops={"snprintf": 50, "vsys_system": 90, "o_lit": 40, "vsn_num": 12, "harness": 8},
             timeout=600,
             desc="real tun_setmtu() with an arbitrary 32-bit value; command parsed by the oracle",
-            bounds="mtu: all 2^32 values", functions=["tun_setmtu"]),
+            bounds="mtu: all 2^32 values", functions=["tun_setmtu"], native_units=["common.c"]),
     ]
     return jobs
 
